@@ -87,6 +87,43 @@ def xm_files(hist):
     return {"/v/main.lay": XM_MAIN + body, "/v/base.lay": XM_BASE}
 
 
+# ---- prompt sessions: every line is compiled into the same module and must continue the numbering of the cache slots of the earlier
+# lines, also after another module (with a cache of its own) was imported in between
+RP_FILES = {"/v/helper.lay": "export class H { init() { self.h = 'hv'; } hm() { return 'hm'; } }\nexport fn hget(o) { return o.h; }\nexport fn hcall(o) { return o.hm(); }\n"}
+RP_LINES = {
+    "defs1": "class P { init() { self.a = 'a-value'; self.b = 'b-value'; } name() { return 'name-result'; } kind() { return 'kind-result'; } }",
+    "fns1": "fn getA(o) { return o.a; } fn callName(o) { return o.name(); }",
+    "fns2": "fn getB(o) { return o.b; } fn callKind(o) { return o.kind(); } fn setB(o) { o.b = 'new-b'; return o.b; }",
+    "imp": "import self.helper;",
+    "useh": "print(helper.hget(helper.H()), helper.hcall(helper.H()));",
+    "use1": "print(getA(P()), callName(P()));",
+    "use2": "print(getB(P()), callKind(P()), setB(P()));",
+    "inline": "print(P().a, P().kind(), P().b, P().name());",
+    "bad": "let = ;",
+    "err": "nil.nope();",
+}
+RP_REQ = {"defs1": ([], ["P"]), "fns1": ([], ["f1"]), "fns2": ([], ["f2"]), "imp": ([], ["helper"]), "useh": (["helper"], []), "use1": (["P", "f1"], []), "use2": (["P", "f2"], []),
+          "inline": (["P"], []), "bad": ([], []), "err": ([], [])}
+
+
+def rp_sessions(L):
+    def rec(seq, defined):
+        if seq:
+            yield tuple(seq)
+        if len(seq) == L:
+            return
+        for n in RP_LINES:
+            req, defs = RP_REQ[n]
+            if any(r not in defined for r in req) or any(d in defined for d in defs):
+                continue
+            if n in ("bad", "err") and seq and seq[-1] in ("bad", "err"):
+                continue
+            seq.append(n)
+            yield from rec(seq, defined | set(defs))
+            seq.pop()
+    return rec([], frozenset())
+
+
 def prog(hist, sites="all"):
     body = []
     for k, h in enumerate(hist):
@@ -104,7 +141,7 @@ class C13(Check):
     level = "exploration"
     rule = ("(hist) all receiver histories of length 1..L (L=4 quick, 6 thorough) over a 17 symbol alphabet (13 for length 4, 11 beyond), visiting all sites, and for length <= 3 (4 thorough) also only the invoke / only the property / only the get-then-call sites, each run with caches "
             "on and with hook H4 forcing every lookup to miss; oracle: equal output, and every step equals the output of that "
-            "receiver at a fresh site; (xmod) two modules with caches of their own: all call histories <= 3 (4 thorough) over 7 call sites in both modules x 4 receivers (base class, subclasses declared in the other module, super calls across the module boundary); (corpus) every corpus program on/off. non-trivial = history with >= 2 different receiver "
+            "receiver at a fresh site; (xmod) two modules with caches of their own: all call histories <= 3 (4 thorough) over 7 call sites in both modules x 4 receivers (base class, subclasses declared in the other module, super calls across the module boundary); (repl) prompt sessions <= 6 (7 thorough) lines over 10 entries (class, two groups of functions with sites, a module import in between, uses, a failing and a raising line), caches on/off; (corpus) every corpus program on/off. non-trivial = history with >= 2 different receiver "
             "classes at the site (or a corpus program containing a property/invoke site)")
     assumptions = ["history runs use the harness allocator's eager-reuse modes (exact size classes, FIFO and LIFO hand-out order), so a freed "
                    "class block is deterministically re-used by a later class; other reuse orders are not explored"]
@@ -126,15 +163,23 @@ class C13(Check):
             ops = XM_OPS if n <= 2 else [o for o in XM_OPS if o[0] in ("areaOf", "descOf", "nameOf", "mainDesc")]
             for h in itertools.product(ops, repeat=n):
                 yield ("xmod", h)
+        for sess in rp_sessions(7 if tier == "thorough" else 6):
+            if sum(1 for n in sess if n.startswith("use") or n == "inline") >= 1 and len(sess) >= 3:
+                yield ("repl", sess)
         for i in range(len(self.progs)):
             yield ("corpus", i)
 
     def describe(self, spec):
+        if spec[0] == "repl":
+            return "prompt session: " + " / ".join(spec[1])
         if spec[0] == "xmod":
             return "two modules: " + " ".join("%s(%s)" % (f, XM_RECV[r][0]) for f, r in spec[1])
         return ("hist " + " ".join(spec[1]) + (" (sites: %s)" % spec[2] if len(spec) > 2 else "")) if spec[0] == "hist" else "corpus " + self.progs[spec[1]][0]
 
     def build(self, spec):
+        if spec[0] == "repl":
+            lines = [RP_LINES[n] for n in spec[1]]
+            return [{"repl": lines, "files": RP_FILES, "entry": "/v/main.lay", "step_limit": 2000000}, {"repl": lines, "files": RP_FILES, "entry": "/v/main.lay", "cache_off": True, "step_limit": 2000000}], None
         if spec[0] == "xmod":
             files = xm_files(spec[1])
             return [{"files": files, "entry": "/v/main.lay", "step_limit": 2000000}, {"files": files, "entry": "/v/main.lay", "cache_off": True, "step_limit": 2000000}], None
@@ -153,6 +198,8 @@ class C13(Check):
             return Verdict(False, True, "on!=off", "caches on and off differ: on class=%s out=%r err=%r | off class=%s out=%r err=%r %s" % (
                 on.get("class"), on.get("out", "")[-300:], on.get("err", "")[-200:], off.get("class"), off.get("out", "")[-300:], off.get("err", "")[-200:],
                 on.get("panic") or on.get("signal") or ""))
+        if spec[0] == "repl":
+            return Verdict(True, True, "ok")
         if spec[0] == "xmod":
             exp = "".join(self.single[("xmod", o)] for o in spec[1])
             if on.get("class") != "ok" or on.get("out") != exp:
